@@ -1,2 +1,3 @@
+@classmethod
 def spec(cls, loc=None, scale=None, support=None):
     return {'loc': constraints.real(loc), 'scale': constraints.posreal(scale), 'support': constraints.real(support)}
